@@ -4,7 +4,7 @@
    they are instantiated below with the modelled reader of the types that need no
    decompression ([rd_lite]); the full RDATA reader is the subject of C18. *)
 From QV Require Import Base.ListX Model.NameWire Model.Reader Model.RdataLite
-  Spec.NameWireS Spec.NameRepr Spec.ReaderS Proofs.NameWireP Proofs.ReaderP Proofs.RdataLiteP.
+  Model.RdataFull Spec.NameWireS Spec.NameRepr Spec.ReaderS Proofs.NameWireP Proofs.ReaderP Proofs.RdataLiteP Proofs.RdataFullP.
 
 Definition rd_total (rd : rdata_reader) := forall c t b cur l, rd c t b cur l <> Panic.
 Definition rd_bounds (rd : rdata_reader) :=
@@ -70,6 +70,11 @@ Proof.
   split; [exact rd_lite_total|]. intros c t b cur l x H. exact (proj1 (rd_lite_bounds c t b cur l x H)).
 Qed.
 
+(* ... and so does the full Rdata::read model of C18 (every class/type, with name decompression),
+   which is the reader the correspondence suite runs. *)
+Theorem c15_rd_full_ok : rd_total rd_full /\ rd_bounds rd_full.
+Proof. split; [exact rd_full_total|exact rd_full_bounds]. Qed.
+
 (* Regression witness: before the fix: commit skip_rr/peek_rr panicked on a 13-octet message. *)
 Theorem c15_total_refuted_prefix :
   let msg := [0;0;0;0; 0;0;0;1; 0;0;0;0; 0]%N in
@@ -86,4 +91,5 @@ Print Assumptions c15_faithful_question.
 Print Assumptions c15_faithful_rr.
 Print Assumptions c15_peek_consistent.
 Print Assumptions c15_rd_lite_ok.
+Print Assumptions c15_rd_full_ok.
 Print Assumptions c15_total_refuted_prefix.
